@@ -68,6 +68,11 @@ theorem el_tin_of {t : Tok} (h : Tin T E t) (msg : String) : El T E (newParseErr
 theorem el_at (i : Nat) (msg : String) : El T E (newParseError (T.getD i E) msg) ↔ True :=
   iff_true_intro (el_tin_of T E ⟨i, SamePos.rfl' _⟩ msg)
 
+theorem el_ite (c : Prop) [Decidable c] (a b : Tok) (msg : String) :
+    El T E (newParseError (if c then a else b) msg) ↔
+      (c → El T E (newParseError a msg)) ∧ (¬ c → El T E (newParseError b msg)) := by
+  split <;> simp_all
+
 /-- A range error from input token `i` to input token `j ≥ i`. -/
 theorem el_range (i j : Nat) (msg : String) (hij : i ≤ j) :
     El T E (newRangeParseError (T.getD i E) (T.getD j E) msg) :=
@@ -256,9 +261,9 @@ macro_rules
       setSid_nextSid, setB_toks, setB_eof, setB_constants, setB_nextCmdId, setB_breakStack, setB_continueStack,
       setB_nextSid, setC_toks, setC_eof, setC_constants, setC_nextCmdId, setC_breakStack, setC_continueStack,
       setC_nextSid,
-      drop_tail_tok, drop_headD_tok, drop_getD_tok, el_at, el_fuel, el_panic, tin_at, tin_lit, tin_type_lit,
+      drop_tail_tok, drop_headD_tok, drop_getD_tok, el_ite, el_at, el_fuel, el_panic, tin_at, tin_lit, tin_type_lit,
       Bool.not_true, Bool.not_false, Bool.false_eq_true, if_true, if_false, ite_self, implies_true, and_self,
-      and_true, true_and, ite_prop_iff, true_implies, false_implies, not_false_eq_true, not_true_eq_false])
+      and_true, true_and, ite_prop_iff, true_implies, false_implies, not_false_eq_true, not_true_eq_false, bne_iff_ne, ne_eq, reduceCtorEq, true_or, or_true])
   | `(tactic| tsimp [$ts,*]) => `(tactic| simp only [tri_bind, tri_pure, tri_fail, tri_ite, tri_get, tri_set,
       tri_cur, tri_peek, tri_peek2, tri_peek3, tri_peek4, tri_nextToken, tri_curIs, tri_peekIs, tri_peek2Is,
       tri_expectPeek, tri_expectPeekErr, tri_tryReplace, tri_newSid, tri_pushBreak, tri_popBreak,
@@ -268,30 +273,40 @@ macro_rules
       setSid_nextSid, setB_toks, setB_eof, setB_constants, setB_nextCmdId, setB_breakStack, setB_continueStack,
       setB_nextSid, setC_toks, setC_eof, setC_constants, setC_nextCmdId, setC_breakStack, setC_continueStack,
       setC_nextSid,
-      drop_tail_tok, drop_headD_tok, drop_getD_tok, el_at, el_fuel, el_panic, tin_at, tin_lit, tin_type_lit,
+      drop_tail_tok, drop_headD_tok, drop_getD_tok, el_ite, el_at, el_fuel, el_panic, tin_at, tin_lit, tin_type_lit,
       Bool.not_true, Bool.not_false, Bool.false_eq_true, if_true, if_false, ite_self, implies_true, and_self,
-      and_true, true_and, ite_prop_iff, true_implies, false_implies, not_false_eq_true, not_true_eq_false, $ts,*])
+      and_true, true_and, ite_prop_iff, true_implies, false_implies, not_false_eq_true, not_true_eq_false, bne_iff_ne, ne_eq, reduceCtorEq, true_or, or_true, $ts,*])
 
 /-- Re-establish the invariant for a state built from one that satisfies it. -/
 macro "invtac" : tactic =>
   `(tactic| (repeat' (first | assumption | apply Inv.upd | apply Inv.setSid | apply Inv.setB | apply Inv.setC)))
 
+theorem tri_exceptMatch {α β} (El : PFail → Prop) (x : Except String β) (s : PState) (Q : α → PState → Prop)
+    (f : β → PM α) (g : String → PM α) :
+    tri El (match x with | .ok a => f a | .error e => g e) s Q ↔
+      (∀ a, x = .ok a → tri El (f a) s Q) ∧ (∀ e, x = .error e → tri El (g e) s Q) := by
+  cases x <;> simp
+
+/-- Break a verification condition into its leaves and close them: `Post` leaves (`invtac`, `omega`), range
+errors (`omega`), calls of functions whose specifications are given in the list. -/
 syntax "tgo" (" [" term,* "]")? : tactic
 macro_rules
   | `(tactic| tgo) => `(tactic| tgo [])
   | `(tactic| tgo [$ts,*]) => `(tactic| repeat' (first
       | exact True.intro
       | assumption
+      | (apply And.intro)
       | (apply post_intro)
       | (exact el_range _ _ _ _ _ (by omega))
       | (apply Inv.upd) | (apply Inv.setSid) | (apply Inv.setB) | (apply Inv.setC)
-      | omega
-      | (intro a s' hp; obtain ⟨k', hk, hinv, hr⟩ := hp; have hs := hinv.toks; have he := hinv.eof;
+      | (show (_ : Nat) ≤ _; omega)
+      | ((with_reducible (intro a s' hp)); obtain ⟨k', hk, hinv, hr⟩ := hp; have hs := hinv.toks; have he := hinv.eof;
           try tsimp [hs, he])
+      | (with_reducible intro _)
       | tsimp
-      | (refine tri_call _ ?_ ?_; first $[| apply $ts]*)
-      | (apply And.intro)
-      | (intro _)
+      | (apply tri_call; first $[| apply $ts]*)
+      | (apply el_tin_of)
+      | (first $[| apply $ts]*)
       | split))
 
 end Pory.Parser
